@@ -10,12 +10,31 @@ From GPV Require Import Base.LinAlg Base.Exec Base.Expr Models.C05_kernels Proof
 Import ListNotations.
 Local Open Scope R_scope.
 
-(* push [den] through the folding constructors *)
-Ltac dn :=
-  repeat (cbn [tadd tsub tmul tdiv tneg texp tsqrt tsin tcos tpow tmax t0 t1 tpi tq TE den];
-          rewrite ?den_sadd, ?den_ssub, ?den_smul, ?den_sdiv, ?den_sneg, ?den_smax,
-                  ?den_tipow, ?den_tnat, ?Q2R'_0, ?Q2R'_1).
-Ltac tr := cbn [tadd tsub tmul tdiv tneg texp tsqrt tsin tcos tpow tmax t0 t1 tpi tq TR].
+(* [den] commutes with every operation of the carrier.  Stated on the projections of [TE] / [TR]
+   themselves so that pushing [den] through a term is pure rewriting (no conversion steps:
+   re-checking conversions between nested folding constructors is exponential in the kernel). *)
+Lemma den_tadd a b : den (@tadd TE a b) = @tadd TR (den a) (den b). Proof. apply den_sadd. Qed.
+Lemma den_tsub a b : den (@tsub TE a b) = @tsub TR (den a) (den b). Proof. apply den_ssub. Qed.
+Lemma den_tmul a b : den (@tmul TE a b) = @tmul TR (den a) (den b). Proof. apply den_smul. Qed.
+Lemma den_tdiv a b : den (@tdiv TE a b) = @tdiv TR (den a) (den b). Proof. apply den_sdiv. Qed.
+Lemma den_tneg a : den (@tneg TE a) = @tneg TR (den a). Proof. apply den_sneg. Qed.
+Lemma den_tmax a b : den (@tmax TE a b) = @tmax TR (den a) (den b). Proof. apply den_smax. Qed.
+Lemma den_texp a : den (@texp TE a) = @texp TR (den a). Proof. reflexivity. Qed.
+Lemma den_tsqrt a : den (@tsqrt TE a) = @tsqrt TR (den a). Proof. reflexivity. Qed.
+Lemma den_tsin a : den (@tsin TE a) = @tsin TR (den a). Proof. reflexivity. Qed.
+Lemma den_tcos a : den (@tcos TE a) = @tcos TR (den a). Proof. reflexivity. Qed.
+Lemma den_tpow a b : den (@tpow TE a b) = @tpow TR (den a) (den b). Proof. reflexivity. Qed.
+Lemma den_t0 : den (@t0 TE) = @t0 TR. Proof. exact Q2R'_0. Qed.
+Lemma den_t1 : den (@t1 TE) = @t1 TR. Proof. exact Q2R'_1. Qed.
+Lemma den_tpi : den (@tpi TE) = @tpi TR. Proof. reflexivity. Qed.
+Lemma den_tq q : den (@tq TE q) = @tq TR q. Proof. reflexivity. Qed.
+Lemma den_tipow' x n : den (@tipow TE x n) = @tipow TR (den x) n. Proof. apply den_tipow. Qed.
+Lemma den_tnat' n : den (@tnat TE n) = @tnat TR n. Proof. apply den_tnat. Qed.
+Global Hint Rewrite den_tadd den_tsub den_tmul den_tdiv den_tneg den_tmax den_texp den_tsqrt den_tsin
+  den_tcos den_tpow den_t0 den_t1 den_tpi den_tq den_tipow' den_tnat' : den_hom.
+Ltac dn := autorewrite with den_hom.
+Ltac tr := idtac.
+Ltac fin := reflexivity.
 
 Definition dfun (f : nat -> expr) : nat -> R := fun m => den (f m).
 
@@ -28,7 +47,7 @@ Lemma den_sqd' d x y l : den (@sqd TE d x y l) = @sqd TR d (dfun x) (dfun y) (df
 Proof. apply den_sqd. Qed.
 
 Lemma den_dot d x y : den (@dot TE d x y) = @dot TR d (dfun x) (dfun y).
-Proof. unfold dot. rewrite den_tsum'. apply tsumR_ext. intros m _. unfold dfun. dn. reflexivity. Qed.
+Proof. unfold dot. rewrite den_tsum'. apply tsumR_ext. intros m _. unfold dfun. dn. fin. Qed.
 
 Lemma den_k_rbf' d x y l : den (@k_rbf TE d x y l) = @k_rbf TR d (dfun x) (dfun y) (dfun l).
 Proof. apply den_k_rbf. Qed.
@@ -47,20 +66,20 @@ Lemma den_k_periodic d x y p l :
   den (@k_periodic TE d x y p l) = @k_periodic TR d (dfun x) (dfun y) (dfun p) (dfun l).
 Proof.
   unfold k_periodic, t2. dn. rewrite den_tsum'. tr. f_equal. f_equal.
-  apply tsumR_ext. intros m _. unfold dfun, tsq. dn. reflexivity.
+  apply tsumR_ext. intros m _. unfold dfun, tsq. dn. fin.
 Qed.
 
 Lemma den_k_cosine p d x y :
   den (@k_cosine TE p d x y) = @k_cosine TR (den p) d (dfun x) (dfun y).
 Proof.
   unfold k_cosine. dn. rewrite den_tsum'. tr. do 4 f_equal.
-  apply tsumR_ext. intros m _. unfold dfun, tsq. dn. reflexivity.
+  apply tsumR_ext. intros m _. unfold dfun, tsq. dn. fin.
 Qed.
 
 Lemma den_k_linear d x y v :
   den (@k_linear TE d x y v) = @k_linear TR d (dfun x) (dfun y) (dfun v).
 Proof.
-  unfold k_linear. rewrite den_tsum'. apply tsumR_ext. intros m _. unfold dfun. dn. reflexivity.
+  unfold k_linear. rewrite den_tsum'. apply tsumR_ext. intros m _. unfold dfun. dn. fin.
 Qed.
 
 Lemma den_k_poly c pw d x y :
@@ -68,7 +87,7 @@ Lemma den_k_poly c pw d x y :
 Proof. unfold k_poly. dn. rewrite den_dot. reflexivity. Qed.
 
 Lemma den_pp_poly q j r : den (@pp_poly TE q j r) = @pp_poly TR q (den j) (den r).
-Proof. destruct q as [|[|[|q]]]; unfold pp_poly, tsq, t2; dn; reflexivity. Qed.
+Proof. destruct q as [|[|[|q]]]; unfold pp_poly, tsq, t2; dn; fin. Qed.
 
 Lemma den_k_pp q d x y l :
   den (@k_pp TE q d x y l) = @k_pp TR q d (dfun x) (dfun y) (dfun l).
@@ -81,7 +100,7 @@ Lemma den_k_sm nq w mu s d x y :
   = @k_sm TR nq (dfun w) (fun q => dfun (mu q)) (fun q => dfun (s q)) d (dfun x) (dfun y).
 Proof.
   unfold k_sm. rewrite den_tprod'. apply tprodR_ext. intros m _. unfold dfun at 1.
-  rewrite den_tsum'. apply tsumR_ext. intros q _. unfold dfun, tsq, t2. dn. reflexivity.
+  rewrite den_tsum'. apply tsumR_ext. intros q _. unfold dfun, tsq, t2. dn. fin.
 Qed.
 
 Lemma den_k_sdelta nz z d x y l :
@@ -90,27 +109,27 @@ Lemma den_k_sdelta nz z d x y l :
 Proof.
   unfold k_sdelta. dn. rewrite den_tsum'. tr. f_equal.
   apply tsumR_ext. intros s _. unfold dfun at 1. unfold t2. dn. rewrite den_tsum'. tr. do 2 f_equal.
-  apply tsumR_ext. intros m _. unfold dfun. dn. reflexivity.
+  apply tsumR_ext. intros m _. unfold dfun. dn. fin.
 Qed.
 
 Lemma den_arc_embed d rad ang l x m :
   den (@arc_embed TE d rad ang l x m) = @arc_embed TR d (dfun rad) (dfun ang) (dfun l) (dfun x) m.
-Proof. unfold arc_embed, dfun. destruct (Nat.ltb m d); dn; reflexivity. Qed.
+Proof. unfold arc_embed, dfun. destruct (Nat.ltb m d); dn; fin. Qed.
 
 Lemma den_vnorm d x : den (@vnorm TE d x) = @vnorm TR d (dfun x).
 Proof.
   unfold vnorm. dn. rewrite den_tsum'. tr. f_equal.
-  apply tsumR_ext. intros m _. unfold dfun, tsq. dn. reflexivity.
+  apply tsumR_ext. intros m _. unfold dfun, tsq. dn. fin.
 Qed.
 
 Lemma den_kuma al be ep r : den (@kuma TE al be ep r) = @kuma TR (den al) (den be) (den ep) (den r).
-Proof. unfold kuma. dn. reflexivity. Qed.
+Proof. unfold kuma. dn. fin. Qed.
 
 Lemma den_cyl_angular np w d x y :
   den (@cyl_angular TE np w d x y) = @cyl_angular TR np (dfun w) d (dfun x) (dfun y).
 Proof.
   unfold cyl_angular. rewrite den_tsum'. apply tsumR_ext. intros p _. unfold dfun at 1.
-  destruct p as [|p]; [reflexivity|]. dn. rewrite den_tsum'. tr. do 3 f_equal.
+  destruct p as [|p]; [reflexivity|]. dn. rewrite den_tsum'. do 2 f_equal.
   apply tsumR_ext. intros m _. unfold dfun at 1. dn. rewrite !den_vnorm. reflexivity.
 Qed.
 
@@ -121,7 +140,7 @@ Proof. unfold k_hamming. dn. rewrite den_dot. reflexivity. Qed.
 Lemma den_gskl_dist ep d x y :
   den (@gskl_dist TE ep d x y) = @gskl_dist TR (den ep) d (dfun x) (dfun y).
 Proof.
-  unfold gskl_dist. rewrite den_tsum'. apply tsumR_ext. intros m _. unfold dfun, tsq, t2. dn. reflexivity.
+  unfold gskl_dist. rewrite den_tsum'. apply tsumR_ext. intros m _. unfold dfun, tsq, t2. dn. fin.
 Qed.
 
 Lemma den_k_gskl mf a ep d x y :
@@ -129,31 +148,32 @@ Lemma den_k_gskl mf a ep d x y :
 Proof. unfold k_gskl. destruct mf; dn; rewrite den_gskl_dist; reflexivity. Qed.
 
 (* elementary symmetric polynomials *)
+Lemma map_repeat' {A B} (f : A -> B) a n : map f (repeat a n) = repeat (f a) n.
+Proof. induction n as [|n IH]; cbn [repeat map]; [reflexivity|]. rewrite IH. reflexivity. Qed.
 Lemma dn_esp_add z prev es :
   map den (@esp_add TE z prev es) = @esp_add TR (den z) (den prev) (map den es).
 Proof.
   revert prev. induction es as [|e es IH]; intros prev; cbn [esp_add map]; [reflexivity|].
-  rewrite IH. dn. reflexivity.
+  rewrite IH. dn. fin.
 Qed.
 Lemma dn_esp_list kmax zs :
   map den (@esp_list TE kmax zs) = @esp_list TR kmax (map den zs).
 Proof.
   induction zs as [|z zs IH]; cbn [esp_list map].
-  - dn. f_equal. rewrite map_repeat. dn. reflexivity.
+  - dn. f_equal. rewrite map_repeat'. dn. fin.
   - rewrite <- IH. destruct (@esp_list TE kmax zs) as [|e0 tl]; cbn [map]; [reflexivity|].
     rewrite dn_esp_add. reflexivity.
 Qed.
 Lemma dn_esp k zs : den (@esp TE k zs) = @esp TR k (map den zs).
 Proof.
-  unfold esp. rewrite <- dn_esp_list. tr. cbn [t0 TE].
-  rewrite <- Q2R'_0. change (Q2R' 0) with (den (EConst 0)). apply map_nth.
+  unfold esp. rewrite <- dn_esp_list. rewrite <- den_t0. symmetry. apply map_nth.
 Qed.
 
 (* ------------------------------------------------------------------ the evaluator *)
 Lemma den_vfun x : dfun (@vfun TE x) = @vfun TR (map den x).
 Proof.
-  apply functional_extensionality. intros m. unfold dfun, vfun. cbn [t0 TE TR].
-  rewrite <- Q2R'_0. change (Q2R' 0) with (den (EConst 0)). symmetry. apply map_nth.
+  apply functional_extensionality. intros m. unfold dfun, vfun.
+  rewrite <- den_t0. symmetry. apply map_nth.
 Qed.
 Lemma den_pick l : dfun (@pick TE l) = @pick TR l.
 Proof. reflexivity. Qed.
@@ -191,6 +211,22 @@ Proof.
   - rewrite IHk, !map_map. reflexivity.
 Qed.
 
+(* the derivative kernels whose entries are not covered by [den_rbf_deriv_entry] *)
+Lemma den_m52grad_entry d x y l a b :
+  den (@m52grad_entry TE d x y l a b) = @m52grad_entry TR d (dfun x) (dfun y) (dfun l) a b.
+Proof.
+  unfold m52grad_entry. destruct a as [|j], b as [|i].
+  - apply den_k_matern.
+  - unfold tsq. dn. rewrite den_sqd'. reflexivity.
+  - unfold tsq. dn. rewrite den_sqd'. reflexivity.
+  - unfold tsq. destruct (Nat.eqb i j); dn; rewrite ?den_sqd'; reflexivity.
+Qed.
+Lemma den_polygrad_entry c pw d x y a b :
+  den (@polygrad_entry TE c pw d x y a b) = @polygrad_entry TR (den c) pw d (dfun x) (dfun y) a b.
+Proof.
+  unfold polygrad_entry. destruct a as [|j], b as [|i]; try destruct (Nat.eqb i j); dn; rewrite ?den_dot; reflexivity.
+Qed.
+
 (* objects built by the public operators *)
 Fixpoint kobj_size (k : kobj) : nat :=
   match k with
@@ -210,9 +246,9 @@ Proof.
     - destruct k0 as [k'|s k'|ks|ks]; cbn [kobj_size] in Hk.
       + apply den_eval.
       + cbn [oeval]. dn. rewrite IH by lia. reflexivity.
-      + cbn [oeval]. induction ks as [|k1 ks IHks]; cbn [fold_right] in *; [dn; reflexivity|].
+      + cbn [oeval]. induction ks as [|k1 ks IHks]; cbn [fold_right] in *; [dn; fin|].
         dn. rewrite (IH k1) by lia. rewrite IHks by lia. reflexivity.
-      + cbn [oeval]. induction ks as [|k1 ks IHks]; cbn [fold_right] in *; [dn; reflexivity|].
+      + cbn [oeval]. induction ks as [|k1 ks IHks]; cbn [fold_right] in *; [dn; fin|].
         dn. rewrite (IH k1) by lia. rewrite IHks by lia. reflexivity. }
   intros o x y. apply (H (kobj_size k) k (le_n _)).
 Qed.
